@@ -211,7 +211,26 @@ def _descr(kind):
         return lambda: ift.PowerSpace(ift.RGSpace((6,), distances=0.25, harmonic=True))
     if kind == 3:
         return lambda: (ift.LMSpace(3), ift.HPSpace(2))
-    return lambda: ift.GLSpace(4)
+    if kind == 4:
+        return lambda: ift.GLSpace(4)
+    # near misses: each differs from one of the descriptions above in exactly one geometry parameter
+    if kind == 5:
+        return lambda: ift.RGSpace((4,), distances=0.25)
+    if kind == 6:
+        return lambda: (ift.LMSpace(3, 2), ift.HPSpace(2))
+    if kind == 7:
+        return lambda: ift.GLSpace(4, 6)
+    if kind == 8:
+        return lambda: ift.PowerSpace(ift.RGSpace((6,), distances=0.25, harmonic=True), binbounds=(0.3, 0.6))
+    return lambda: ift.RGSpace((4,), distances=0.5, harmonic=True)
+
+
+NKINDS = 10
+
+
+def _shape_of(d):
+    parts = d if isinstance(d, tuple) else (d,)
+    return tuple(x for p in parts for x in p.shape)
 
 
 def h_identity(B, steps):
@@ -219,7 +238,7 @@ def h_identity(B, steps):
     seen = {}
     mseen = {}
     for s in range(steps):
-        kind = B.pick(f"kind{s}", 0, 4)
+        kind = B.pick(f"kind{s}", 0, NKINDS - 1)
         op = B.pick(f"op{s}", 0, 3)
         mk = _descr(kind)
         if op in (0, 1):
@@ -229,11 +248,18 @@ def h_identity(B, steps):
                 B.is_true(f"step {s}: a pickled DomainTuple unpickles to the identical object", t2 is t)
             if kind in seen:
                 B.is_true(f"step {s}: equal descriptions give the identical DomainTuple", seen[kind] is t)
+            B.is_true(f"step {s}: the DomainTuple has the shape and size of ITS description (not of a cached look-alike)",
+                      t.shape == _shape_of(mk()) and t.size == int(np.prod(_shape_of(mk()))))
+            B.is_true(f"step {s}: descriptions that differ in one geometry parameter give different, unequal DomainTuples",
+                      all((t2 is not t) and (t2 != t) for k2, t2 in seen.items() if k2 != kind))
             seen[kind] = t
             B.is_true(f"step {s}: DomainTuple.make is idempotent", ift.DomainTuple.make(t) is t)
             B.is_true(f"step {s}: equal domains compare and hash equal", mk() == mk() and hash(ift.DomainTuple.make(mk())) == hash(t))
         else:
             m = ift.MultiDomain.make({"a": mk(), "b": _descr((kind + 1) % 5)()})
+            B.is_true(f"step {s}: the MultiDomain entry has the shape of ITS description", m["a"].shape == _shape_of(mk()))
+            B.is_true(f"step {s}: descriptions that differ in one geometry parameter give different MultiDomains",
+                      all((m2_ is not m) and (m2_ != m) for k2, m2_ in mseen.items() if k2 != kind))
             if op == 3:
                 m2 = pickle.loads(pickle.dumps(m))
                 B.is_true(f"step {s}: a pickled MultiDomain unpickles to the identical object", m2 is m)
@@ -266,11 +292,11 @@ META = {
                    "the real constructors with SYMBOLIC distances / bounds (float coercions redirected to the engine's reals; comparisons "
                    "inside searchsorted are path decisions): volumes, extents, codomain distances, k-length tables, unique k-lengths, bin "
                    "membership, bin volumes and bin k-lengths are proved for ALL distances / bounds.  DomainTuple.make / MultiDomain.make / "
-                   "pickle histories (choices = symbolic integers) check that equal descriptions give the identical object.",
+                   "pickle histories (choices = symbolic integers) check that equal descriptions give the identical object and that descriptions differing in one geometry parameter give different objects with their own shape.",
     "functions_encoded": ["nifty.cl.domains.rg_space.RGSpace.{__init__,scalar_dvol,extents,_get_dist_array,get_k_length_array,get_unique_k_lengths,get_default_codomain}",
                           "nifty.cl.domains.power_space.PowerSpace.{__init__,dvol,k_lengths,pindex}", "nifty.cl.domains.structured_domain.StructuredDomain.{dvol,total_volume}",
                           "nifty.cl.domain_tuple.DomainTuple.{make,__reduce__}", "nifty.cl.multi_domain.MultiDomain.{make,__reduce__}"],
-    "bounds": {"grid": "1-D up to 7 pixels, 2-D up to 3x4", "bin bounds": "2-3 symbolic bounds", "identity histories": "2 (3 thorough) operations over 5 domain descriptions"},
+    "bounds": {"grid": "1-D up to 7 pixels, 2-D up to 3x4", "bin bounds": "2-3 symbolic bounds", "identity histories": "2 (3 thorough) operations over 10 domain descriptions (5 + 5 near misses differing in one geometry parameter: distances, harmonic flag, mmax, nlon, bin bounds)"},
     "stubs": ["float() / np.empty(float64) / astype(float64) inside the domain modules keep symbolic reals; np.bincount with symbolic weights is an explicit sum"],
     "outside": [                "LMSpace / GLSpace / HPSpace geometry (ducc kernels, concrete tables)", "logarithmic / linear bin-bound helpers", "DOFSpace"],
     "assumptions": ["distances > 0, bin bounds positive and strictly increasing"],
